@@ -166,7 +166,14 @@ def tx_cycle(start, pattern=('read',)):
     states = set()
     while n < 66000 + len(pattern):
         kind = pattern[n % len(pattern)]
-        req = cmds[kind].request_bytes()
+        try:
+            req = cmds[kind].request_bytes()
+        except BaseException as e:  # noqa: BLE001
+            n += 1
+            vio.append(('tx-frame-builds', f'transmission {n} ({kind}): request_bytes() raised {type(e).__name__}: {e}'))
+            if len(vio) > 5:
+                break
+            continue
         n += 1
         tx = struct.unpack('>H', req[:2])[0]
         states.add(tx)
